@@ -164,6 +164,7 @@ func runC17(c *Ctx) {
 			}
 		}
 	}
+	c17RunLs(c)
 	c17Real(c)
 }
 
@@ -618,4 +619,115 @@ func c17HostOwner(fi os.FileInfo) (uint32, uint32) {
 		return st.Uid, st.Gid
 	}
 	return 0, 0
+}
+
+// ---- kind runls: the whole long name against Mode/LongName.v ----
+
+// lsInfo is an entry with every column of the long name under the case's control (no Sys(): one link, numeric owner through
+// FileInfoUidGid).
+type lsInfo struct {
+	name     string
+	size     int64
+	mode     os.FileMode
+	mt       time.Time
+	uid, gid uint32
+}
+
+func (f lsInfo) Name() string       { return f.name }
+func (f lsInfo) Size() int64        { return f.size }
+func (f lsInfo) Mode() os.FileMode  { return f.mode }
+func (f lsInfo) ModTime() time.Time { return f.mt }
+func (f lsInfo) IsDir() bool        { return f.mode.IsDir() }
+func (f lsInfo) Sys() any           { return nil }
+func (f lsInfo) Uid() uint32        { return f.uid }
+func (f lsInfo) Gid() uint32        { return f.gid }
+
+func kvz(neg, mag string, v int64) []string {
+	if v < 0 {
+		return []string{kvb(neg, true), kvx(mag, uint64(-v))}
+	}
+	return []string{kvb(neg, false), kvx(mag, uint64(v))}
+}
+
+// c17RunLs: runLs on entries whose modification time walks the calendar (every month end, leap days, the days around the
+// six-months-ago threshold including the month ends AddDate normalises, the epoch, year 1, 2038, 2106, 9999), with sizes
+// across int64, ids across uint32, names with blanks. Compared byte for byte with run_ls of the extracted model; the oracle
+// reads the line back column by column (the property's own statement) with Go's own calendar as the reference.
+func c17RunLs(c *Ctx) {
+	saved := time.Local
+	time.Local = time.UTC // runLs formats in the time's own location and takes "now" in time.Local: the model is in UTC
+	defer func() { time.Local = saved }()
+	now := time.Now().UTC()
+	thr := now.AddDate(0, -6, 0).Unix()
+	var mts []int64
+	for _, d := range []int64{0, 1, -1, 59, -59, 3600, -3600, 86399, -86399, 86400, -86400, 2 * 86400, -2 * 86400, 30 * 86400, -30 * 86400} {
+		mts = append(mts, thr+d, now.Unix()+d)
+	}
+	mts = append(mts, 0, 1, 59, 60, 3599, 86399, 86400, 951782400, 951868800 /* 2000-02-29 */, 4107542400 /* 2100-03-01 */, 4107456000, /* 2100-02-28 */
+		2147483647, 2147483648, 4294967295, 4294967296, -1, -86400, -62135596800 /* 0001-01-01 */, 253402300799 /* 9999-12-31 */, 32503680000)
+	for y := 1999; y <= 2001; y++ { // every month end and start around a leap year
+		for m := time.January; m <= time.December; m++ {
+			t := time.Date(y, m, 1, 0, 0, 0, 0, time.UTC)
+			mts = append(mts, t.Unix(), t.Unix()-1)
+		}
+	}
+	r := c.Rng
+	for i := 0; i < 150; i++ {
+		mts = append(mts, r.Int63n(1<<32), now.Unix()-r.Int63n(400*86400))
+	}
+	sizes := []int64{0, 1, 9, 10, 99999999, 100000000, 1<<63 - 1, -1, -5, -1 << 63, 12345}
+	ids := []uint32{0, 1, 1000, 99999999, 4294967295, 12345678}
+	links := uint64(1)
+	names := []string{"x", "a b", " lead", "trail ", "", "two  blanks", "\xff\x00z", "日本"}
+	modes := []os.FileMode{0o644, os.ModeDir | 0o755, os.ModeSymlink | 0o777, os.ModeSetuid | 0o4755&0o777, os.ModeSticky | os.ModeDir | 0o777, os.ModeNamedPipe | 0o600, 0}
+	for i, mt := range mts {
+		fi := lsInfo{name: names[i%len(names)], size: sizes[i%len(sizes)], mode: modes[i%len(modes)], mt: time.Unix(mt, 0).UTC(),
+			uid: ids[i%len(ids)], gid: ids[(i/2)%len(ids)]}
+		n0 := time.Now().UTC().Unix()
+		line := sftp.VerifRunLs(fi)
+		n1 := time.Now().UTC().Unix() + 1
+		w := sftp.VerifFromFileMode(fi.mode)
+		args := []string{kvx("mode", uint64(w)), kvx("links", links), kvh("uid", []byte(strconv.FormatUint(uint64(fi.uid), 10))),
+			kvh("gid", []byte(strconv.FormatUint(uint64(fi.gid), 10)))}
+		args = append(args, kvz("sneg", "sabs", fi.size)...)
+		args = append(args, kvz("mneg", "mabs", mt)...)
+		args = append(args, kvz("nneg0", "now0", n0)...)
+		args = append(args, kvz("nneg1", "now1", n1)...)
+		args = append(args, kvh("name", []byte(fi.name)))
+		n := c.Case("runls", args...)
+		c.NT(n)
+		c.Obs(n, kvh("ls", []byte(line)))
+		// oracle: the columns read back as the structured attributes (Go's calendar as the reference)
+		ok, why := true, ""
+		f := strings.Fields(line)
+		t := fi.mt
+		switch {
+		case len(f) < 8:
+			ok, why = false, fmt.Sprintf("longname-columns: %q has fewer than 8 columns", line)
+		case f[1] != "1" || f[2] != strconv.FormatUint(uint64(fi.uid), 10) || f[3] != strconv.FormatUint(uint64(fi.gid), 10):
+			ok, why = false, fmt.Sprintf("longname-columns: links/owner/group columns of %q are not 1/%d/%d", line, fi.uid, fi.gid)
+		case f[4] != strconv.FormatInt(fi.size, 10):
+			ok, why = false, fmt.Sprintf("longname-size: size column of %q is not %d", line, fi.size)
+		case f[5] != t.Month().String()[:3] || f[6] != strconv.Itoa(t.Day()):
+			ok, why = false, fmt.Sprintf("longname-date: date columns of %q are not those of %s", line, t.Format(time.RFC3339))
+		case f[7] != fmt.Sprintf("%02d:%02d", t.Hour(), t.Minute()) && f[7] != fmt.Sprintf("%04d", t.Year()):
+			ok, why = false, fmt.Sprintf("longname-date: the year-or-clock column of %q is neither the clock nor the year of %s", line, t.Format(time.RFC3339))
+		case strings.Contains(f[7], ":") && (mt < thr-86400*4):
+			ok, why = false, fmt.Sprintf("longname-date: %q shows the clock for a time more than six months old (%s)", line, t.Format(time.RFC3339))
+		case !strings.Contains(f[7], ":") && (mt > thr+86400*4):
+			ok, why = false, fmt.Sprintf("longname-date: %q shows the year for a time less than six months old (%s)", line, t.Format(time.RFC3339))
+		case !strings.HasSuffix(line, " "+fi.name):
+			ok, why = false, fmt.Sprintf("longname-name: %q does not end in the name %q", line, fi.name)
+		}
+		if t.Year() < 0 || t.Year() > 9999 {
+			ok, why = true, "" // Go writes such years with a sign / more digits: outside what the property speaks of
+		}
+		c.Oracle(n, ok, why)
+		c.Stat("runls_cases")
+		if strings.Contains(line, ":") && len(f) >= 8 && strings.Contains(f[7], ":") {
+			c.Stat("runls_clock_column")
+		} else {
+			c.Stat("runls_year_column")
+		}
+	}
 }
